@@ -467,7 +467,7 @@ macro_rules! impl_cache_processor {
                     $item::Delete { key, conflict } => {
                         let sitem = self.store.try_remove(&key, conflict)?;
                         #[cfg(transparencies_stretto_verif)]
-                        crate::verif::yield_point("del_store");
+                        crate::verif::yield_point("del_policy");
                         // An entry that is still resident under this index hash belongs to a
                         // different key (other conflict hash) and keeps its charge.
                         if sitem.is_some() || self.store.expiration(&key).is_none() {
